@@ -121,9 +121,54 @@ def do_case(ctx, inp):
             ctx.fail("default-priorities-changed", {"before": p1, "after": p2, "non_default_branches": [n1, n2]}); return
 
 
+def gen_threshold(rng):
+    """compounds over ONE integer variable with a threshold that is not 1 (t >= k, -t >= -k, at most k), as the condition or
+    consequence of an Imply, under Not / XNor / Any / All — the shapes whose JSON is easily mistaken for the bare variable"""
+    def thr(name):
+        lo = rng.randint(-2, 1); hi = lo + rng.randint(2, 6)
+        var = {"c": "var", "id": name, "lo": lo, "hi": hi}
+        k = rng.randint(lo, hi + 1)
+        r = rng.random()
+        if r < 0.5:
+            n = {"c": "AtLeast", "v": k, "args": [var]}
+            if rng.random() < 0.4: n["sign"] = 1
+        elif r < 0.7:
+            n = {"c": "AtLeast", "v": -k, "args": [var], "sign": -1}
+        elif r < 0.85:
+            n = {"c": "AtMost", "v": k, "args": [var]}
+        else:
+            n = {"c": rng.choice(["All", "Any"]), "args": [var]}
+        if rng.random() < 0.25: n["id"] = "T" + name
+        return n
+    S = lambda i: {"c": "str", "id": i}
+    r = rng.random()
+    if r < 0.45:
+        a = {"c": "Imply", "cond": thr("t"), "cons": S("y") if rng.random() < 0.6 else thr("u")}
+    elif r < 0.6:
+        a = {"c": "Imply", "cond": S("y"), "cons": thr("t")}
+    elif r < 0.75:
+        a = {"c": "Not", "arg": thr("t")}
+    elif r < 0.85:
+        a = {"c": "XNor", "args": [thr("t"), S("y")]}
+    else:
+        a = {"c": rng.choice(["Any", "All"]), "args": [thr("t"), S("y"), {"c": "Imply", "cond": thr("u"), "cons": S("z")}]}
+    if a["c"] != "Not" and rng.random() < 0.4: a["id"] = "R0"
+    return a
+
+
 def run(ctx):
     rng = ctx.rng
     n = (450 if ctx.quick else 3000) * (3 if ctx.search else 1)
+    for _ in range(n // 8):
+        a = gen_threshold(rng)
+        try:
+            o = build(a)
+        except Exception:
+            continue
+        if is_var(o) or not well_formed(snap(o)) or o.errors():
+            continue
+        ctx.tags["single-variable-threshold-stream"] += 1
+        do_case(ctx, {"ast": a})
     for _ in range(n):
         if rng.random() < 0.35:
             # configurators; a third of them rich in choices nested below choices (defaults below defaults)
